@@ -35,8 +35,14 @@ void *memcpy(void *dst, const void *src, size_t n)
 {
 	__CPROVER_assert(__CPROVER_r_ok(src, n), "CHECK:memcpy source range readable");
 	__CPROVER_assert(__CPROVER_w_ok(dst, n), "CHECK:memcpy destination range writable");
-	if (xat_bk < n)
-		((unsigned char *)dst)[xat_bk] = ((const unsigned char *)src)[xat_bk];
+	unsigned char *d = dst;
+	const unsigned char *s = src;
+	/* the first 8 bytes exactly (ext2fs_get_mem / ext2fs_free_mem move pointers with memcpy), then the ghost byte */
+#define CP(i) if (n > (i)) d[i] = s[i];
+	CP(0) CP(1) CP(2) CP(3) CP(4) CP(5) CP(6) CP(7)
+#undef CP
+	if (xat_bk >= 8 && xat_bk < n)
+		d[xat_bk] = s[xat_bk];
 	return dst;
 }
 #endif
@@ -45,7 +51,11 @@ void *memcpy(void *dst, const void *src, size_t n)
 #include "xat_contracts.h"
 
 /* ghost monitors: how often each EA inode was released / created */
-unsigned int g_created, g_dec_old, g_dec_new, g_dec_other, g_ndec;
+#define g_created xat_mon.created
+#define g_dec_old xat_mon.dec_old
+#define g_dec_new xat_mon.dec_new
+#define g_dec_other xat_mon.dec_other
+#define g_ndec xat_mon.ndec
 unsigned int g_old_ino;
 
 static errcode_t xattr_create_ea_inode(ext2_filsys fs, const void *value, size_t value_len, ext2_ino_t *ea_ino)
